@@ -9,6 +9,7 @@ package props
 import (
 	"encoding/hex"
 	"fmt"
+	"math/big"
 	"reflect"
 	"strings"
 	"testing"
@@ -64,6 +65,12 @@ func c11Value(t *rapid.T, name string, kind reflect.Kind, label string) any {
 	case "ChainReferenceId":
 		return rapid.SampledFrom([]string{"eth-main", "bnb-main", "eth", "base-main", "x"}).Draw(t, label)
 	case "Amount":
+		// token amounts are 256-bit quantities (18-decimal tokens pass 2^64 at about 18.4 tokens)
+		if rapid.IntRange(0, 2).Draw(t, label+".big") == 0 {
+			hi := sdkmath.NewIntFromUint64(rapid.Uint64Range(1, 1<<62).Draw(t, label+".hi"))
+			lo := sdkmath.NewIntFromUint64(rapid.Uint64().Draw(t, label+".lo"))
+			return hi.Mul(sdkmath.NewIntFromBigInt(new(big.Int).Lsh(big.NewInt(1), 64))).Add(lo)
+		}
 		return sdkmath.NewIntFromUint64(rapid.Uint64Range(1, 1<<62).Draw(t, label))
 	}
 	switch kind {
@@ -159,6 +166,11 @@ func TestC11_ClaimIdentityBindsFields(t *testing.T) {
 		// spelling that differs only in letter case is a different effect as well.
 		if (f.Name == "PalomaReceiver" || f.Name == "SmartContractAddress") && rapid.IntRange(0, 3).Draw(t, "caseFlipOnly") == 0 {
 			nv = c11FlipCase(t, old.(string))
+		}
+		// amounts that agree in their low 64 bits (a fixed-width rendering would not tell them apart)
+		if f.Name == "Amount" && rapid.IntRange(0, 3).Draw(t, "sameLow64Bits") == 0 {
+			k := sdkmath.NewIntFromUint64(rapid.Uint64Range(1, 1000).Draw(t, "multiplesOf2^64"))
+			nv = old.(sdkmath.Int).Add(k.Mul(sdkmath.NewIntFromBigInt(new(big.Int).Lsh(big.NewInt(1), 64))))
 		}
 		// The deployment id is compared byte-wise with the chain's latest compass id (claims with another spelling are
 		// never tallied; compass ids are bytes32 values, NUL-padded on the right) and the receiver is bech32-decoded:
